@@ -45,6 +45,7 @@ static sqfs_object_t *frag_table_copy(const sqfs_object_t *obj)
 		return NULL;
 	}
 
+	sqfs_object_init(copy, frag_table_destroy, frag_table_copy);
 	return (sqfs_object_t *)copy;
 }
 
